@@ -128,6 +128,11 @@ def scenarios():
                           fault="parent-is-file"))
         S.append(Scenario("syntaxerr" + ("-rm" if rm else ""), out="store_moq.go", rm=rm, prior="own",
                           fault="syntax-error", expect_gen_err=True))
+        if not rm:
+            # another package that happens to have the source package's name (and its own Item)
+            # (without -skip-ensure the self-check line is the known finding explicit_same_pkg, D15)
+            S.append(Scenario("samename-skip", out="../alt/store/store_moq.go", pkg="store", fault="same-name-dest",
+                              flags=("-skip-ensure",)))
         S.append(Scenario("gomodsync" + ("-rm" if rm else ""), out="../outside/store_moq.go", rm=rm, pkg="outside",
                           fault="gomod-out-of-sync", expect_gen_err=True))
     return S
@@ -205,6 +210,10 @@ def run_one(tools, base, sc, ref_cache):
             f.write('package store\n\nimport "example.com/dep"\n\nvar _ dep.T\n')
         run_env = C.goenv()
         run_env.pop("GOFLAGS", None)
+    if sc.fault == "same-name-dest":
+        os.makedirs(os.path.join(root, "alt", "store"))
+        with open(os.path.join(root, "alt", "store", "decoy.go"), "w") as f:
+            f.write("package store\n\ntype Item struct{ Decoy int }\n")
     if sc.fault == "syntax-error":
         with open(os.path.join(pkgdir, "broken.go"), "w") as f:
             f.write("package store\nfunc {\n")
@@ -220,6 +229,14 @@ def run_one(tools, base, sc, ref_cache):
                rc=rc, stdout=so, stderr=se, changed=diff(before, after), out_after=out_after,
                prior_content=prior_content, ref_rc=ref[0], ref_stdout=ref[1], ref_stdout_full=ref[1], root=root,
                out_matches_ref=(out_after == ref[1]) if (rc == 0 and outabs and ref[0] == 0) else None)
+    if sc.fault == "same-name-dest" and rc == 0:
+        # the mock now lives in a different package: it must compile there and implement the interface
+        with open(os.path.join(root, "alt", "store", "zz_assert.go"), "w") as f:
+            f.write('package store\n\nimport src "example.com/l3/store"\n\nvar _ src.Store = &StoreMock{}\n')
+        b = subprocess.run(["go", "vet", "./alt/store/"], cwd=root, env=C.goenv(), stdout=subprocess.PIPE,
+                           stderr=subprocess.STDOUT, text=True, timeout=300)
+        obs["dest_build"] = (b.returncode == 0)
+        obs["dest_build_err"] = b.stdout[-600:]
     # a second run in place: regeneration over moq's own output (C15)
     if rc == 0 and outabs and sc.fault is None:
         rc2, so2, se2 = moq(args)
@@ -258,6 +275,9 @@ def coq_case(o):
         entries.append((comps, "NDir"))
     if o["fault"] == "parent-is-file":
         entries.append((comps[:1], '(NFile "blocker")'))
+    if o["fault"] == "same-name-dest":
+        for i in range(1, len(comps)):
+            entries.append((comps[:i], "NDir"))
     fs_items = ["(%s, %s)" % (C.coq_list([C.coq_str(c) for c in p]), n) for p, n in entries]
     # the generator oracle: fails when the package does not load (garbage file present, syntax
     # error) or when Mock fails (lookup / format); otherwise the reference bytes
@@ -314,13 +334,13 @@ def observed_summary(o):
             node = "dir" if o["fault"] == "out-is-dir" else "absent"
     anc = ""
     for i in range(1, len(comps)):
-        rel = "store/" + "/".join(comps[:i])
+        rel = os.path.normpath("store/" + "/".join(comps[:i]))
         # after-state of the ancestor: from the change list and the initial facts
         ch = o["changed"].get(rel + "/")
         if ch is not None:
             state = "dir" if ch[1] == "dir" else "absent"
         else:
-            existed = bool(o["prior"]) or o["fault"] == "out-is-dir"
+            existed = bool(o["prior"]) or o["fault"] in ("out-is-dir", "same-name-dest")
             if o["fault"] == "parent-is-file":
                 state = "file:blocker"
             else:
